@@ -97,6 +97,9 @@ func genConfig(rt *rapid.T, p *Profile) Config {
 				cfg.Stream = append(cfg.Stream, i)
 			}
 		}
+		if len(cfg.Stream) > 0 && rapid.IntRange(0, 2).Draw(rt, "flowControl") == 0 {
+			cfg.StreamWindow = rapid.SampledFrom([]int{64, 256, 512, 1024, 4096}).Draw(rt, "streamWindow")
+		}
 	}
 	switch rapid.IntRange(0, 5).Draw(rt, "denyKind") {
 	case 0:
@@ -229,6 +232,9 @@ func genStep(rt *rapid.T, p *Profile, cfg *Config, i int) Step { //nolint:cyclop
 			st.P = append(st.P, peer("p"))
 		}
 		st.RespLost = rapid.IntRange(0, 11).Draw(rt, "respLost") == 0
+		if k == 1 && rapid.IntRange(0, 7).Draw(rt, "permTie") == 0 {
+			st.Rel, st.RespLost = "tie", false // sent at the very instant the permission expires
+		}
 		if k > 0 && rapid.IntRange(0, 15).Draw(rt, "truncFirst") == 0 {
 			st.Opt, st.RespLost = "trunc-first", false
 			st.Seed = rapid.Uint64Range(0, 1<<20).Draw(rt, "truncSeed")
@@ -237,6 +243,9 @@ func genStep(rt *rapid.T, p *Profile, cfg *Config, i int) Step { //nolint:cyclop
 		st.P = []int{peer("p")}
 		st.Ch = rapid.OneOf(rapid.IntRange(0, 2), rapid.IntRange(0, len(ChannelSlots)-1)).Draw(rt, "ch")
 		st.RespLost = rapid.IntRange(0, 11).Draw(rt, "respLost") == 0
+		if rapid.IntRange(0, 7).Draw(rt, "chanTie") == 0 {
+			st.Rel, st.RespLost = "tie", false // sent at the very instant the binding expires
+		}
 	case "Send":
 		st.P = []int{peer("p")}
 		st.N = genLen(rt, p, "n")
@@ -255,6 +264,12 @@ func genStep(rt *rapid.T, p *Profile, cfg *Config, i int) Step { //nolint:cyclop
 		st.N = genLen(rt, p, "n")
 		st.Seed = rapid.Uint64Range(0, 1<<20).Draw(rt, "seed")
 		st.Content = rapid.SampledFrom([]string{"", "", "", "zero", "stun", "chandata", "x4000"}).Draw(rt, "content")
+		if cfg.StreamWindow > 0 && cfg.isStream(st.C) && rapid.IntRange(0, 2).Draw(rt, "stall") == 0 {
+			// the client stops reading in the middle of a frame while more datagrams arrive
+			st.Stall = rapid.SampledFrom([]int{1, 4, 6, 6, 10, 31}).Draw(rt, "stallS")
+			st.Burst = rapid.IntRange(2, 4).Draw(rt, "burst")
+			st.N = rapid.IntRange(min(cfg.StreamWindow/2, 900), min(3*cfg.StreamWindow+40, 1400)).Draw(rt, "stallN")
+		}
 	case "Hostile":
 		st.N = rapid.IntRange(0, 12).Draw(rt, "mode")
 		st.Seed = rapid.Uint64Range(0, 1<<24).Draw(rt, "hseed")
